@@ -170,4 +170,25 @@ def pickerPick (items : List RingEntry) (st : Nat → CState) (hasConnecting : B
   if random then walkRandom st n e n 0 hasConnecting []
   else (walkHash st n e n 0, [])
 
+/-! ### ringhashBalancer: when the ring is regenerated (ringhash.go UpdateState / UpdateClientConnState) -/
+
+/-- `config` (min/max ring size), the endpoint set of `endpointStates`, and `ring`. -/
+structure BalState where
+  cfg : Option (Nat × Nat) := none
+  eps : List Endpoint := []
+  ring : List RingEntry := []
+
+/-- One resolver + LB-config update. `shouldRegenerateRing` is set when an endpoint was added or
+    removed or changed its weight / hash key (the endpoint sets differ), when there was no config
+    yet, or when `MinRingSize` or `MaxRingSize` differs from the previous config; the ring is then
+    rebuilt by `newRing` (here: `fresh`, the ring newRing builds for the new endpoints and bounds),
+    provided there is at least one endpoint. Otherwise the old ring is kept. -/
+def balUpdate (s : BalState) (eps : List Endpoint) (minSize maxSize : Nat) (fresh : List RingEntry) : BalState :=
+  let epsChanged := decide (sortByKey s.eps ≠ sortByKey eps)
+  let cfgChanged := match s.cfg with
+    | none => true
+    | some (a, b) => a != minSize || b != maxSize
+  if !eps.isEmpty && (epsChanged || cfgChanged) then { cfg := some (minSize, maxSize), eps := eps, ring := fresh }
+  else { cfg := some (minSize, maxSize), eps := eps, ring := s.ring }
+
 end GrpcModel.Ring
